@@ -61,6 +61,89 @@ def resolve_ref(body, t, g):
     return t
 
 
+def op_word(t, base, depth=0):
+    """t as `base` followed by a word of operation indices (applied left to right), through op(..).unwrap(), walk(.., [..]) and Some(..)"""
+    t = strip(t)
+    if t == base:
+        return []
+    if depth > 12 or not isinstance(t, tuple):
+        return None
+    if t[0] == "agg" and t[1].endswith("Option::Some") and len(t[2]) == 1:
+        return op_word(t[2][0], base, depth + 1)
+    if is_call(t, "Option::<T>::unwrap") or is_call(t, "Option::<T>::expect"):
+        return op_word(t[2][0], base, depth + 1)
+    if t[0] == "call" and (t[1].endswith("DSet::op") or t[1].endswith("::op_unchecked")) and len(t[2]) == 3:
+        i = eval_int(t[2][1])
+        w = op_word(t[2][2], base, depth + 1)
+        return None if i is None or w is None else w + [i]
+    if t[0] == "call" and t[1].endswith("DSet::walk") and len(t[2]) == 3:
+        w = op_word(t[2][1], base, depth + 1)
+        idx = strip(t[2][2])
+        if w is None or idx[0] != "agg":
+            return None
+        js = [eval_int(x) for x in idx[2]]
+        return None if any(j is None for j in js) else w + js
+    return None
+
+
+def reduce_word(w):
+    out = []
+    for i in w:
+        if out and out[-1] == i:
+            out.pop()           # the operations are involutions
+        else:
+            out.append(i)
+    return tuple(out)
+
+
+def excluded_words(body, bb, base, g):
+    """canonical words w with a dominating fact `base . w != base` at block bb (a relation u = v is base = base . v . u^-1; w and w^-1
+    describe the same relation)"""
+    out = set()
+    for a in body.facts_at(bb):
+        a = atom_norm(a, g)
+        l = r = None
+        if a[0] == "rel" and a[1] == "Ne":
+            l, r = a[2], a[3]
+        elif a[0] == "bool" and a[2] is False and is_call(a[1], "PartialEq::eq"):
+            l, r = a[1][2]
+        if l is None:
+            continue
+        wl, wr = op_word(l, base), op_word(r, base)
+        if wl is None or wr is None:
+            continue
+        w = reduce_word(wr + wl[::-1])
+        out.add(min(w, w[::-1]))
+    return out
+
+
+def squeeze_guard(ctx, g):
+    """fix_local_2_vertex: at a 2-valent vertex (r(1, 2, d) == 2) the two faces are squeezed together only if the chamber e = d.2.3 on
+    the other face is not d itself and is not d rotated by one corner step in EITHER direction (d.2.3.0.1 != d and d.2.3.1.0 != d):
+    otherwise the two faces are glued to each other and squeezing changes the manifold (lens spaces L(p, 1) lose 3 from p)"""
+    ctx.clauses.append("fix_local_2_vertex squeezes only faces that are not glued to each other by the identity or a one-step rotation in either direction (T3)")
+    b = ctx.body(M + "fix_local_2_vertex")
+    sites = list(b.calls(exact=M + "squeeze_tile_3d"))
+    ctx.floor("squeeze_tile_3d calls in fix_local_2_vertex", len(sites), 1)
+    for bi, t in sites:
+        fa = [atom_norm(a, g) for a in b.facts_at(bi)]
+        base = None
+        for a in fa:
+            if a[0] == "rel" and a[1] == "Eq" and is_call(a[2], M + "r") and a[3] == ("int", 2) and [eval_int(x) for x in a[2][2][1:3]] == [1, 2]:
+                base = strip(a[2][2][3])
+        ctx.ob("T3-squeeze-guard", b.name, "r(1, 2, d) == 2", "ok" if base is not None else "violation",
+               "the move is applied at a vertex of degree 2 in its tile" if base is not None else "the squeeze is not dominated by r(ds, 1, 2, d) == 2", b.span_of(bi))
+        if base is None:
+            continue
+        ex = excluded_words(b, bi, base, g)
+        want = {"d.2.3 != d": (2, 3), "d.2.3.0.1 != d": (2, 3, 0, 1), "d.2.3.1.0 != d": (2, 3, 1, 0)}
+        missing = [k for k, w in want.items() if min(w, w[::-1]) not in ex]
+        ctx.ob("T3-squeeze-guard", b.name, "faces not glued to each other", "ok" if not missing else "violation",
+               "the squeeze is dominated by d.2.3 != d, d.2.3.0.1 != d and d.2.3.1.0 != d" if not missing else
+               "the squeeze is not excluded when %s fails (dominating exclusions, as words: %s): the two faces at the vertex are glued to each other and squeezing them changes the manifold" % (
+                   " / ".join(missing), sorted(ex)), b.span_of(bi))
+
+
 def in_loop(body, bb):
     return any(bb in blocks for h, blocks in natural_loops(body))
 
@@ -256,5 +339,6 @@ def run(ctx):
         why = "no carried D-set"
     ctx.ob("T9-merge-carried", ma.name, "ds = out", "ok" if okm else "violation",
            "starts from a clone of the input, keeps every Some(out), returns the carried D-set" if okm else "merge_all does not thread one D-set through its steps (%s)" % why)
+    squeeze_guard(ctx, g)
     for bi, t in mi:
         every_iteration_reaches(ctx, "T3-merge-every-step", ma, bi, "step-loop->op(&ds)", "some step of merge_all's table is skipped")
